@@ -284,7 +284,8 @@ class Quote(BlockToken):
 
     @staticmethod
     def convert_leading_tabs(string):
-        string = string.replace('>\t', '   ', 1)
+        if string.startswith('>\t'):
+            string = '   ' + string[2:]
         count = 0
         for i, c in enumerate(string):
             if c == '\t':
